@@ -117,7 +117,10 @@ static bool eq_bool(bool a, bool b) { return a == b; }
 void bidib_state_free(void);
 
 #define RUN(T, CALL, EQ, FREE) do { \
-	T r1 = CALL; T r2 = CALL; \
+	verif_locks_reset(); \
+	T r1 = CALL; \
+	VASSERT(verif_max_acq() <= 1, "the getter takes every lock at most once (all reads of a structure happen in one critical section: the copy is a state that existed at one instant)"); \
+	T r2 = CALL; \
 	VASSERT(EQ(r1, r2), "result is fully determined by the state and independent of the second copy (no uninitialised field, distinct buffers)"); \
 	VASSERT(verif_all_free(), "getter released its locks"); \
 	bidib_state_free(); \
